@@ -313,10 +313,13 @@ example : (officeBuild (exOffice 0 none)).toOption.map (fun v => (v.nodes.map (Â
 example : officeBuild { exOffice 250 none with ipStart := 10 } = .error .ipRange := by decide
 example : officeBuild { exOffice 47 none with ipStart := 3 } = .error .ipStartSmall := by decide
 
-/-- the loop as it was before `fix: office-lan node set with a core switch never linked its router to the LAN` (F-32b): without the
-`router â†” core:24` link the build is NOT the declared structure. -/
-theorem C20_office_unlinked_router_counterexample :
-    (officeDeclared (exOffice 47 none)).links.filter (fun l => l.a = "router_A") â‰  [] := by decide
+/-- F-32b (repaired): with a core switch the declared structure has the `router â†” core:24` link, so a loop that forgets it no
+longer builds what is declared (the rig's corpus witness `office_lan_core_switch.json` is this entry). -/
+example : (officeDeclared (exOffice 47 none)).links.filter (fun l => l.a = "router_A") =
+    [oLink "router_A" 1 "switch_core_A" 24 150] := by decide
+
+/-- non-vacuity of `C20_office_edge_uplinks`: 47 computers need three edge switches -/
+example : numSwitches (exOffice 47 none).numPcs > 1 := by decide
 
 /-! ### tie to the source -/
 
